@@ -18,15 +18,24 @@ package document
 //@   ensures [bound] typeis(entry, []interface{}) ==> len(ret) <= len(entry.([]interface{}))
 //@   ensures [strings] forall j int :: 0 <= j && j < len(ret) ==>
 //@        (exists i int :: 0 <= i && i < len(entry.([]interface{})) && typeis(entry.([]interface{})[i], string) && entry.([]interface{})[i].(string) == ret[j])
+//@   ensures [own] ret == nil || fresh(ret)
+//@   loop 0 invariant [own] result == nil || fresh(result)
 //@   loop 0 invariant len(result) <= $k && $k <= len(entries)
 //@   loop 0 invariant forall j int :: 0 <= j && j < len(result) ==>
 //@        (exists i int :: 0 <= i && i < $k && typeis(entries[i], string) && entries[i].(string) == result[j])
 
+// the parsed lists are new slices (callers may edit them without touching the document)
 //@ func ParsePublicKeys(entry) (ret)
 //@   pure
+//@   modifies nothing
+//@   ensures [own] ret == nil || fresh(ret)
+//@   loop 0 invariant [own] result == nil || fresh(result)
 //
 //@ func ParseServices(entry) (ret)
 //@   pure
+//@   modifies nothing
+//@   ensures [own] ret == nil || fresh(ret)
+//@   loop 0 invariant [own] result == nil || fresh(result)
 
 //@ spec func docJWKValid(jwk JWK) bool =
 //@     strEntry(jwk, "kty") != "" && ((strEntry(jwk, "kty") == "RSA" && strEntry(jwk, "n") != "" && strEntry(jwk, "e") != "") ||
